@@ -706,9 +706,10 @@ class Gen:
             s["pdrs"][ul["id"]], s["pdrs"][dl["id"]] = ul, dl
             s["fars"][ulf["id"]], s["fars"][dlf["id"]] = ulf, dlf
         elif kind == "rm_pair" and len(s["pdrs"]) >= 4:
-            top = max(s["pdrs"])
-            n = (top - 1) // 2
-            ids = [2 * n + 1, 2 * n + 2]
+            # any pair, not only the last one: the rules behind the removed ones move up in the stored arrays
+            pairs = sorted({(i - 1) // 2 for i in s["pdrs"]})
+            n = r.choice(pairs[1:] + pairs[1:] + pairs) if not getattr(self, "rm_last_only", False) else pairs[-1]
+            ids = [i for i in (2 * n + 1, 2 * n + 2) if i in s["pdrs"]]
             ies += [P.grouped(P.REMOVE_PDR, P.u16(P.PDR_ID, i)) for i in ids] + [P.grouped(P.REMOVE_FAR, P.u32(P.FAR_ID, i)) for i in ids]
             for i in ids:
                 s["pdrs"].pop(i, None)
@@ -1147,6 +1148,7 @@ def corpus_scenarios():
                                                            "cp_seid": 77, "pdrs": [p1u, p1d, p2u, p2d], "fars": f, "qers": []})
         g.sessions[lseid] = {"conn": 0, "cp_seid": 77, "pdrs": {p["id"]: p for p in (p1u, p1d, p2u, p2d)}, "fars": {x["id"]: x for x in f}, "qers": {}}
         snap()
+        g.rm_last_only = True           # the pair to go is the second one (whose PDR made the UPF allocate the address)
         g.modify(lseid, kind="rm_pair")
         snap()
         g.delete(lseid)
